@@ -14,7 +14,7 @@ RULE = {
     "non-trivial = formatter inputs outside [0, 2^n) or with the sign bit set; table checks with >=2 rows and >=1 unaligned or sub-word write; distinct by (value, width) / case hash."
 }
 ASSUMPTIONS = {"C17": ["R8 parses the strings back (no formatting code shared)", "the shadow of written addresses is maintained from the backing Memory's public write_*/reset calls; bytes of a faulting straddling write are treated as 'either'"]}
-REQUIRED = {"C17": ["formatter_exhaustive_12", "formatter_exhaustive_16", "formatter_32", "wrapped_formatter_calls", "register_tables_checked", "memory_tables_checked", "memory_rows_checked", "toy_tables_checked", "toy_register_reprs_checked", "subword_rows", "cached_table_checks", "tables_after_reload_checked", "custom_register_file_cases"]}
+REQUIRED = {"C17": ["formatter_exhaustive_12", "formatter_exhaustive_16", "formatter_32", "wrapped_formatter_calls", "register_tables_checked", "memory_tables_checked", "memory_rows_checked", "toy_tables_checked", "toy_register_reprs_checked", "subword_rows", "cached_table_checks", "tables_after_reload_checked", "custom_register_file_cases", "toy_ir_vs_fetched_word"]}
 
 
 def plan(prop, tier, seed):
@@ -211,7 +211,15 @@ def run_toy_case(case, res):
         rr = sim.get_register_representations()
         res.count("toy_register_reprs_checked")
         li = st.loaded_instruction
-        for key, val, n in (("accu", int(st.accu), 16), ("pc", int(st.program_counter), 12), ("ir", None if li is None else int(li), 16)):
+        irv = None if li is None else int(li)
+        if li is not None:
+            # the instruction register holds the word fetched from (pc - 1): for the thirteen real opcodes the
+            # display must denote exactly that word (aliases 13-15 are normalised to NOP by the machine)
+            fetched = int(st.memory.read_halfword((int(st.program_counter) - 1) % 4096))
+            if (fetched >> 12) <= 12:
+                res.count("toy_ir_vs_fetched_word")
+                irv = fetched
+        for key, val, n in (("accu", int(st.accu), 16), ("pc", int(st.program_counter), 12), ("ir", irv, 16)):
             if val is None:
                 if tuple(rr[key]) != ("", "", "", ""):
                     res.violation("C17", "toy-register-repr", "%s shown as %r although no instruction is loaded" % (key, rr[key]), case)
